@@ -214,7 +214,7 @@ Lemma step_other_xinv c p o r c' :
   CInv c -> Sim c p -> AdvEq c p -> XInv c p -> frame_end o = None -> step c o = (r, c') ->
   match r with OWrote w => XInv c' (peer_see p w) | OErr _ _ | OExn => True | _ => XInv c' p end.
 Proof.
-  intros I S A X FE. destruct o; cbn in FE; try discriminate; cbn [step].
+  intros I S A X FE. destruct o; cbn in FE; try discriminate FE; cbn [step].
   - unfold handle_touch. destruct (negb _); [intros H; inversion H; subst; exact Logic.I|].
     destruct (get_or_create c sid) as [s c1| |code] eqn:G; intros H; inversion H; subst; try exact X; try exact Logic.I.
     apply (goc_xinv _ _ _ _ _ X G).
@@ -348,21 +348,21 @@ Proof.
     + destruct (peer_within (c_client c) p (p_adv_msd p sid) sid e fin) eqn:W.
       * destruct (closes r) eqn:NC; [reflexivity|].
         assert (G : good r (Sim c' (peer_upd p sid e fin) /\ MSim c' (peer_upd p sid e fin))).
-        { destruct o; cbn in FE; try discriminate; inversion FE; subst; cbn [step] in St.
+        { destruct o; cbn in FE; try discriminate FE; inversion FE; subst; cbn [step] in St.
           - exact (full_stream _ _ _ _ _ _ _ _ I S M St W).
           - exact (full_reset _ _ _ _ _ _ Flag I S M St W). }
         assert (X' : XInv c' (peer_upd p sid e fin)).
-        { destruct o; cbn in FE; try discriminate; inversion FE; subst; cbn [step] in St;
+        { destruct o; cbn in FE; try discriminate FE; inversion FE; subst; cbn [step] in St;
             [exact (stream_xinv _ _ _ _ _ _ _ _ _ I S X St W NC)|exact (reset_xinv _ _ _ _ _ _ _ I S X St W NC)]. }
         assert (AN : AdvEq c' p /\ not_wrote r).
-        { destruct o; cbn in FE; try discriminate; cbn [step] in St;
+        { destruct o; cbn in FE; try discriminate FE; cbn [step] in St;
             [exact (handle_stream_adveq _ _ _ _ _ _ _ _ I A St)|exact (handle_reset_stream_adveq _ _ _ _ _ _ I A St)]. }
         destruct AN as (A2 & NW).
         destruct r; cbn [good closes not_wrote] in *; try discriminate NC; try contradiction;
           destruct G as (S' & M'); apply IH; auto; apply AdvEq_upd, A2.
       * destruct (within_wire_limits (c_client c) p sid e) eqn:WW; [reflexivity|].
         assert (OK : over_ok c sid e r = true).
-        { destruct o; cbn in FE; try discriminate; inversion FE; subst; cbn [step] in St;
+        { destruct o; cbn in FE; try discriminate FE; inversion FE; subst; cbn [step] in St;
             [exact (over_stream _ _ _ _ _ _ _ _ S A X St WW)|exact (over_reset _ _ _ _ _ _ S A X St WW)]. }
         rewrite OK. reflexivity.
     + pose proof (step_other _ _ _ _ _ I S FE St) as G. pose proof (step_other_msim _ _ _ _ _ I S M FE St) as GM.
